@@ -17,19 +17,6 @@ theorem WalkN.walk {T : Tree K B V} {k : K} {n : Nat} {b c : B} (h : WalkN T k n
   | refl b => exact .refl b
   | step hf hw _ ih => exact .step hf hw ih
 
-theorem Reader.run_succ (n : Nat) (sc : SC K B V) (r : Reader K B V) (h : ∀ v, r.pc ≠ .done v) :
-    Reader.run (n + 1) sc r = Reader.run n (r.stepSC sc) { r with pc := r.stepPc sc } := by
-  conv => lhs; unfold Reader.run
-  split
-  · rename_i v hv; exact absurd hv (h v)
-  · rfl
-
-theorem Reader.run_of_done (n : Nat) (sc : SC K B V) (r : Reader K B V) {v : Option V} (h : r.pc = .done v) :
-    Reader.run n sc r = (sc, r) := by
-  cases n with
-  | zero => rfl
-  | succ n => unfold Reader.run; rw [h]
-
 theorem Inv.present {sc : SC K B V} {T : Tree K B V} (hI : Inv sc T none) {b : B} {x : Blk K B V} {k : K} {e : Entry V}
     (hx : T.find b = some x) (hw : alookup x.writes k = some e) :
     linkAt sc b = some x.prev ∧ entryAt sc k b = some e := by
@@ -181,5 +168,80 @@ theorem SC.get_complete {T : Tree K B V} (sc : SC K B V) (hI : Inv sc T none) {k
   have := Reader.run_complete hx hw n sc { Reader.init k d with pc := .link d 0 } d 0 (2 * sc.maxDepth + 3) hI hwn
     (.refl d) rfl rfl rfl (by omega) (by omega) hev
   unfold Reader.result; rw [this]
+
+theorem pendLookup_cons_none {m : List (K × Entry V)} {rest : List (List (K × Entry V))} {k : K}
+    (h : pendLookup (m :: rest) k = none) : alookup m k = none ∧ pendLookup rest k = none := by
+  unfold pendLookup at h
+  cases hm : alookup m k with
+  | some e => rw [hm] at h; cases h
+  | none => rw [hm] at h; exact ⟨rfl, h⟩
+
+/-- every lookup operation whose context has no pending entry for the key and whose chain reaches a written value within
+    `maxDepth` blocks returns that value (a hit), when no LRU evicts during the lookup -/
+theorem Sys.step_complete {T : Tree K B V} (s : Sys H K B V) (op : Op H K B V) (hS : SysInv s T)
+    {pend : List (List (K × Entry V))} {b c : B} {k : K} {x : Blk K B V} {v : V} {n : Nat}
+    (hctx : s.ctx T false op = some (pend, b, k)) (hp : pendLookup pend k = none)
+    (hwalk : WalkN T k n b c) (hn : n ≤ s.sc.maxDepth) (hx : T.find c = some x)
+    (hw : alookup x.writes k = some (.val v)) (hev : (s.step op).1.sc.evictions = s.sc.evictions) :
+    (s.step op).2 = .hit v := by
+  cases op with
+  | tget t k' =>
+    simp only [Sys.ctx] at hctx
+    simp only [Sys.step] at hev ⊢
+    cases h1 : alookup s.tcs t with
+    | none => simp [h1] at hctx
+    | some tc =>
+      simp only [h1] at hctx hev ⊢
+      cases h3 : tc.main with
+      | block h =>
+        simp only [h3] at hctx hev ⊢
+        cases h4 : alookup s.bcs h with
+        | none => simp [h4] at hctx
+        | some bc =>
+          simp only [h4, Bool.false_and, Bool.false_eq_true, if_false, Option.some.injEq, Prod.mk.injEq] at hctx hev ⊢
+          obtain ⟨rfl, rfl, rfl⟩ := hctx
+          obtain ⟨hp1, hp'⟩ := pendLookup_cons_none hp
+          obtain ⟨hp2, _⟩ := pendLookup_cons_none hp'
+          simp only [hp1] at hev ⊢
+          unfold BC.get at hev ⊢
+          simp only [hp2] at hev ⊢
+          rw [SC.get_complete s.sc hS.inv hwalk hn hx hw hev]; rfl
+      | query qb =>
+        simp only [h3, Option.some.injEq, Prod.mk.injEq] at hctx hev ⊢
+        obtain ⟨rfl, rfl, rfl⟩ := hctx
+        obtain ⟨hp1, _⟩ := pendLookup_cons_none hp
+        simp only [hp1] at hev ⊢
+        rw [SC.get_complete s.sc hS.inv hwalk hn hx hw hev]; rfl
+  | bget h k' =>
+    simp only [Sys.ctx] at hctx
+    simp only [Sys.step] at hev ⊢
+    cases h4 : alookup s.bcs h with
+    | none => simp [h4] at hctx
+    | some bc =>
+      simp only [h4, Bool.false_and, Bool.false_eq_true, if_false, Option.some.injEq, Prod.mk.injEq] at hctx hev ⊢
+      obtain ⟨rfl, rfl, rfl⟩ := hctx
+      obtain ⟨hp2, _⟩ := pendLookup_cons_none hp
+      unfold BC.get at hev ⊢
+      simp only [hp2] at hev ⊢
+      rw [SC.get_complete s.sc hS.inv hwalk hn hx hw hev]; rfl
+  | qget qb k' =>
+    simp only [Sys.ctx, Option.some.injEq, Prod.mk.injEq] at hctx
+    obtain ⟨rfl, rfl, rfl⟩ := hctx
+    simp only [Sys.step] at hev ⊢
+    rw [SC.get_complete s.sc hS.inv hwalk hn hx hw hev]; rfl
+  | sget k' qb =>
+    simp only [Sys.ctx, Option.some.injEq, Prod.mk.injEq] at hctx
+    obtain ⟨rfl, rfl, rfl⟩ := hctx
+    simp only [Sys.step] at hev ⊢
+    rw [SC.get_complete s.sc hS.inv hwalk hn hx hw hev]; rfl
+  | blk _ _ _ => simp [Sys.ctx] at hctx
+  | bhash _ _ => simp [Sys.ctx] at hctx
+  | txn _ _ => simp [Sys.ctx] at hctx
+  | qtxn _ _ => simp [Sys.ctx] at hctx
+  | tset _ _ _ => simp [Sys.ctx] at hctx
+  | trem _ _ => simp [Sys.ctx] at hctx
+  | tcommit _ => simp [Sys.ctx] at hctx
+  | bset _ _ _ => simp [Sys.ctx] at hctx
+  | bcommit _ => simp [Sys.ctx] at hctx
 
 end Verif.SC
